@@ -78,6 +78,19 @@ class Meter(Stub):
             return m
         raise Unsupported("meter subscript")
 
+    @property
+    def loc(self):
+        me = self
+
+        class _Loc(Stub):
+            def __getitem__(self_, k):
+                if isinstance(k, Mask):
+                    return me[k]
+                if isinstance(k, tuple) and len(k) == 2 and isinstance(k[0], Mask) and isinstance(k[1], slice) and k[1] == slice(None):
+                    return me[k[0]]
+                raise Unsupported("meter.loc[...] with something other than a row mask")
+        return _Loc()
+
 
 class _BoundSelf(AbsObj, BoundRepoMethods):
     """The model object of an interpreted method: attributes set by the rule, every other method is the repository's own, interpreted."""
